@@ -293,4 +293,39 @@ impl<S: Storage> Replica<S> {
         self.commit_operations(ops)
     }
 //@end
+
+//@props C18
+//@extract src/replica.rs :: impl<S: Storage> Replica<S> :: fn working_set
+    pub fn working_set(&mut self) -> (r: Result<WorkingSet>)
+        ensures final(self).sv() == old(self).sv(),
+            //@ob C18 C15 Replica::working_set.a-well-formed-snapshot-of-the-stored-working-set (WorkingSet::new's assertion cannot fail)
+            r matches Ok(w) ==> w.by_index@ == old(self).sv().ws && w.wf(),
+{
+        Ok(WorkingSet::new(self.taskdb.working_set()?))
+    }
+//@end
+//@extract src/replica.rs :: impl<S: Storage> Replica<S> :: fn get_task_data | R29map
+    pub fn get_task_data(&mut self, uuid: Uuid) -> (r: Result<Option<TaskData>>)
+        ensures final(self).sv() == old(self).sv(),
+            //@ob C18 C19 Replica::get_task_data.the-stored-task-under-its-uuid,-None-iff-it-does-not-exist
+            match r {
+                Ok(Some(t)) => t.uuid == uuid && old(self).sv().tasks.dom().contains(uuid) && t.taskmap@ == old(self).sv().tasks[uuid],
+                Ok(None) => !old(self).sv().tasks.dom().contains(uuid),
+                Err(_) => true,
+            },
+{
+        Ok(match self.taskdb.get_task(uuid)? {
+            Some(tm) => Some(TaskData::new(uuid, tm)),
+            None => None,
+        })
+    }
+//@end
+//@extract src/replica.rs :: impl<S: Storage> Replica<S> :: fn all_task_uuids
+    pub fn all_task_uuids(&mut self) -> (r: Result<Vec<Uuid>>)
+        ensures final(self).sv() == old(self).sv(),
+            r matches Ok(v) ==> uuids_listed(v@, old(self).sv().tasks),
+{
+        self.taskdb.all_task_uuids()
+    }
+//@end
 }
